@@ -4,7 +4,7 @@ from fractions import Fraction
 from harness.core import *
 from harness import gen
 from harness.props._sp_util import *
-from harness.props import C01, C02
+from harness.props import C01, C02, C03
 
 PID = "C11"
 LEVEL = "proof"
@@ -12,7 +12,7 @@ MT = {
     "sp": CheckFn("sp-maxtimes", "Model.CrossSemiring", "sp_check_maxtimes", C01.CF["real"].ty),
     "fp": CheckFn("fp-maxtimes", "Model.CrossSemiring", "fp_check_maxtimes", C02.CF["real"].ty),
 }
-CHECKFNS = C01.CHECKFNS + C02.CHECKFNS + list(MT.values())
+CHECKFNS = C01.CHECKFNS + C02.CHECKFNS + list(MT.values()) + C03.CHECKFNS
 ASSUMPTIONS = [
     "every option combination (method x j_precompute x dtype x interpreter -OO) is judged in Coq against the same exact model (C01/C02 check functions), so agreement between combinations follows from agreement with the model; bitwise equality of the -OO run with the normal run is additionally measured and reported",
     "Log = log Real: both judged against the ereal model; Bool = support of Real: theorem supp_Zk; Viterbi <= Log: the Viterbi result with real-valued log-weights is judged against the max-times model and theorem maxtimes_le_plustimes gives the inequality",
@@ -137,6 +137,33 @@ def run(tier, seed):
             violations.append(Violation("result under this option combination disagrees with the exact model (verdict %d of %s)" % (c, kind), case=case, call=call,
                                         oracle="exact model of the sum-product (C01/C02)", corr="C11 / corr:options", failing_input_found=c in (1, 4, 5, 6, 7),
                                         finding_key=("jprecompute_wrong_value" if jp else None)))
+    # gradients across method x j_precompute x semiring (C03's dual-number check)
+    gvals = []; gmeta = []; f9_skipped = 0
+    for gi in range(max(6, n // 2)):
+        recursive = (gi % 2 == 1)
+        jspec = C03.jpre_spec(rng, recursive)
+        for sr in (SR("real", "float64", Fraction(1, 8) if recursive else Fraction(1)), SR("log", "float64", Fraction(1, 8) if recursive else Fraction(1))):
+            for method in ("fixed-point", "newton"):
+                for jp in ((False, True) if sr.name == "real" else (False,)):
+                    try:
+                        got = C03.grad_cases(jspec, sr, method, rng=rng, j_precompute=jp)
+                    except (AssertionError, RuntimeError) as e:
+                        if jp:
+                            f9_skipped += 1
+                            violations.append(Violation("sum_product(..., j_precompute=True).backward() raised: %r" % (e,), case=dict(spec=gen.spec_jsonable(jspec), semiring=repr(sr), method=method),
+                                                        corr="corr:options-gradient", call="backward with j_precompute=True", finding_key="jprecompute_exception"))
+                            continue
+                        raise
+                    for cf, wire, meta in got:
+                        gvals.append(wire); gmeta.append((meta["case"], jp))
+    if gvals:
+        gcodes, a = C03.run_model_parallel(gvals, seed, 2)
+        nk += a; total += len(gcodes)
+        for (case, jp), c in zip(gmeta, gcodes):
+            if c in (0, 30, 31): continue
+            violations.append(Violation("gradient under this option combination differs from the exact derivative (C03 verdict %d)" % c, case=case,
+                                        oracle="dual-number derivative (C03)", corr="C11 / C03", failing_input_found=(c == 1), call="sum_product(...).backward()",
+                                        finding_key=("jprecompute_wrong_value" if jp else None)))
     n_assert, side = asserts_with_side_effects()
     for s in side:
         violations.append(Violation("assert / __debug__ block with a possible side effect at %s (behaviour could differ under -O)" % s, case=dict(location=s),
@@ -148,7 +175,8 @@ def run(tier, seed):
                rule="random FGG specs (half non-recursive, half recursive) x {Real f64, Real f32, Log, Viterbi(real log-weights, max-times reading), Bool} x {fixed-point, newton, newton+j_precompute, linear} x {python, python -OO}; every result judged in Coq against the exact model; distinct_nontrivial = distinct specs",
                kernel_reevaluated=nk,
                samples=[dict(info=repr(info[0][1:4]), result=res_n[0])],
-               open_items=["gradients under j_precompute=True (F9) are not compared here until C03's gradient check is merged"])
+               gradient_cases=len(gvals), jprecompute_gradient_exceptions=f9_skipped,
+               open_items=["gradients are judged on C03's j_precompute-friendly grammar family (rules with one or two edges); on other shapes j_precompute=True is covered by the known findings F9"])
     return cov, violations
 
 def replay(path):
